@@ -185,6 +185,7 @@ def check(repo: Repo, rep: Report) -> None:
                 if isinstance(n, ast.Call) and dotted(n.func) == "self._loop.call_soon_threadsafe":
                     rep.ob("P3-threadsafe-entry", g, short(n, 60), True)
     # P5: the single-thread scheduler's dispose cancels the handle unconditionally -----------------------------
+    rep.rule("P7-shortcut-only-when-due", "schedule_relative takes the immediate path only under a test that bounds the delay by zero", floor=2)
     rep.rule("P5-cancel-unconditional", "AsyncIOScheduler: the dispose closure cancels its handle on every path (a due-but-not-yet-run "
                                         "timer is still cancellable)", floor=2)
     for mname in ("schedule", "schedule_relative"):
@@ -252,6 +253,37 @@ def check(repo: Repo, rep: Report) -> None:
                 ok = bool(imm) and all(any(isinstance(e, ast.Compare) and p for e, p in s.ctx.guards) for s in imm)
                 rep.ob("P4-held-and-delay", m, f"{cname}.{mname}: non-positive delay -> schedule", ok,
                        "non-positive delays are not routed through schedule()")
+                # ... and ONLY non-positive delays: the shortcut runs the action as soon as the loop turns, so a delay that is
+                # still positive may not take it (the action would start before its due time)
+                dl = u(secs[0].node.targets[0]) if secs else "?delay"
+                for s in imm:
+                    rep.ob("P7-shortcut-only-when-due", m, f"{cname}.{mname}: `{short(s.node)}` only when {dl} <= 0", _implies_nonpositive(m, s.ctx.guards, dl),
+                           f"{cname}.{mname} takes the immediate path `{short(s.node, 50)}` under {[u(e) for e, _ in s.ctx.guards]}, which "
+                           f"does not imply `{dl} <= 0`: an action whose delay is still positive is started at once, before its due time")
+
+
+def _num(e):
+    if isinstance(e, ast.Constant) and isinstance(e.value, (int, float)) and not isinstance(e.value, bool):
+        return e.value
+    if isinstance(e, ast.UnaryOp) and isinstance(e.op, ast.USub) and isinstance(e.operand, ast.Constant) and isinstance(e.operand.value, (int, float)):
+        return -e.operand.value
+    return None
+
+
+def _implies_nonpositive(fn, guards, name: str) -> bool:
+    """Some guard of the site is a comparison of `name` with a numeric literal that bounds it by zero from above."""
+    from ..rules import effective_test
+    from ..astutil import atoms
+    for e, pol in guards:
+        for a, ap in atoms(effective_test(fn, e), pol):
+            if not (ap and isinstance(a, ast.Compare) and len(a.ops) == 1):
+                continue
+            l_, r_, op = a.left, a.comparators[0], type(a.ops[0])
+            if u(l_) == name and _num(r_) is not None and _num(r_) <= 0 and op in (ast.LtE, ast.Lt, ast.Eq):
+                return True
+            if u(r_) == name and _num(l_) is not None and _num(l_) <= 0 and op in (ast.GtE, ast.Gt, ast.Eq):
+                return True
+    return False
 
 
 def _reaches_cancel(fn, seen=None) -> bool:
